@@ -52,6 +52,10 @@ pub struct Scn {
     /// exclusion rules are about directories found *below* the given path, not about how the path itself is spelled
     #[serde(default)]
     pub root_prefix: String,
+    /// the simulated cargo derives each test's outcome from the body found in the generated harness (needed when two
+    /// files define a test of the same name with different bodies)
+    #[serde(default)]
+    pub outcomes_from_body: bool,
 }
 
 fn render_file(f: &TestFile) -> String {
@@ -110,6 +114,8 @@ pub fn gen_scn(seed: u64) -> Scn {
     let words = ["alpha", "beta", "gamma", "delta", "io", "parse", "net", "math"];
     let mut files = Vec::new();
     let mut used = BTreeSet::new();
+    let mut all_names: Vec<String> = Vec::new();
+    let mut duplicates = false;
     let in_tests_dir = r.chance(1, 3);
     for i in 0..nfiles {
         let base = if r.chance(1, 2) { format!("test_{}{i}.incn", r.pick(&words)) } else { format!("{}{i}_test.incn", r.pick(&words)) };
@@ -123,9 +129,22 @@ pub fn gen_scn(seed: u64) -> Scn {
         let mut tests = Vec::new();
         for j in 0..nt {
             let mut name = format!("test_{}_{}{}", r.pick(&words), r.pick(&words), j);
-            while !used.insert(name.clone()) {
-                name.push('x');
+            if r.chance(1, 6) {
+                if let Some(prev) = all_names.last() {
+                    // a name that extends (or is extended by) another test's name
+                    name = format!("{prev}_more");
+                }
             }
+            if r.chance(1, 12) && i > 0 && !all_names.is_empty() {
+                // the same test name as in another file, with its own body
+                name = r.pick(&all_names).clone();
+                duplicates = true;
+            } else {
+                while !used.insert(name.clone()) {
+                    name.push('x');
+                }
+            }
+            all_names.push(name.clone());
             let outcome = match r.below(10) {
                 0..=5 => "pass",
                 6..=8 => "fail",
@@ -146,6 +165,9 @@ pub fn gen_scn(seed: u64) -> Scn {
                 }
             }
             r.shuffle(&mut marker_order);
+            if tests.iter().any(|t: &TestFn| t.name == name) {
+                continue;
+            }
             let fixture_param = r.chance(1, 10);
             // async tests are run through #[tokio::test]
             let is_async = !fixture_param && r.chance(1, 10);
@@ -211,6 +233,7 @@ pub fn gen_scn(seed: u64) -> Scn {
     } else {
         ".".to_string()
     };
+    let outcomes_from_body = duplicates;
     let n_nodes = files.len() + extra.len();
     let mut order: Vec<usize> = (0..n_nodes).collect();
     r.shuffle(&mut order);
@@ -219,11 +242,13 @@ pub fn gen_scn(seed: u64) -> Scn {
         extra_files: extra,
         path_arg,
         flags,
-        cargo_mode: if r.chance(1, 2) { "model" } else { "told" }.to_string(),
+        // told verdicts are keyed by test name: with duplicate names only the model (outcome from the harness body) can tell
+        cargo_mode: if duplicates || r.chance(1, 2) { "model" } else { "told" }.to_string(),
         faults: BTreeMap::new(),
         no_cargo: false,
         order,
         root_prefix: r.pick(&["", "", "", ".ci/", "target/", "node_modules/dep/", "ws/"]).to_string(),
+        outcomes_from_body,
     }
 }
 
@@ -391,7 +416,7 @@ pub fn run_scn(scn: &Scn, scratch: &Path, tag: &str) -> RunOut {
             outcomes.insert(t.name.clone(), t.outcome.clone());
         }
     }
-    let _ = std::fs::write(&scenario, json!({"mode": scn.cargo_mode, "outcomes": outcomes, "faults": scn.faults}).to_string());
+    let _ = std::fs::write(&scenario, json!({"mode": scn.cargo_mode, "outcomes": outcomes, "faults": scn.faults, "outcomes_from_body": scn.outcomes_from_body}).to_string());
     let real = scn.cargo_mode == "real";
     let mut env = if real {
         // calibration: the real cargo and rustc, offline, with a target directory shared by all tests of the run
@@ -476,8 +501,19 @@ pub fn run_scn(scn: &Scn, scratch: &Path, tag: &str) -> RunOut {
     // ---- per-test verdicts
     let stop_first = scn.flags.iter().any(|f| f == "-x");
     let mut expect_lines: Vec<(String, String, String, TestFn)> = Vec::new(); // (file, name, verdict, test)
+    let mut seen_by_name: BTreeMap<String, usize> = BTreeMap::new();
     for (fname, t) in &exp.selected {
-        let inv: Vec<&Value> = jr.iter().filter(|j| j["cwd"].as_str().map(|c| c.ends_with(&format!("/target/incan_tests/{}", t.name))).unwrap_or(false)).collect();
+        // tests of the same name (in different files) are handed to cargo one after the other from the same directory
+        let all_inv: Vec<&Value> = jr.iter().filter(|j| j["cwd"].as_str().map(|c| c.ends_with(&format!("/target/incan_tests/{}", t.name))).unwrap_or(false)).collect();
+        let same_name_runnable = exp.selected.iter().filter(|(_, o)| o.name == t.name && !o.skip).count();
+        let k = if t.skip { usize::MAX } else { let e = seen_by_name.entry(t.name.clone()).or_insert(0); *e += 1; *e - 1 };
+        let inv: Vec<&Value> = if t.skip {
+            if same_name_runnable == 0 { all_inv.clone() } else { Vec::new() }
+        } else if all_inv.len() > same_name_runnable {
+            all_inv.clone() // more invocations than tests of that name: reported below as ran-twice
+        } else {
+            all_inv.get(k).cloned().into_iter().collect()
+        };
         let verdict = if t.skip {
             if !inv.is_empty() {
                 findings.push(Finding {
@@ -499,6 +535,15 @@ pub fn run_scn(scn: &Scn, scratch: &Path, tag: &str) -> RunOut {
                     let ran: Vec<(String, String)> = j["ran"].as_array().map(|a| a.iter().filter_map(|x| Some((x[0].as_str()?.to_string(), x[1].as_str()?.to_string()))).collect()).unwrap_or_default();
                     match ran.iter().find(|(n, _)| n == &t.name) {
                         None => "NOT-RUN", // body never ran: must not be reported as passed
+                        Some((_, o)) if scn.outcomes_from_body && o != &t.outcome => {
+                            // the harness contains a function of that name, but not this file's body
+                            findings.push(Finding {
+                                class: "wrong-body-ran".into(),
+                                fingerprint: format!("wrong-body-ran|{}", feature_string(t, scn)),
+                                detail: format!("{fname}::{} is designed to {}, the body cargo found in its harness would {o}: another file's function of the same name (or a stale harness) was run", t.name, t.outcome),
+                            });
+                            if o == "pass" { "PASSED" } else { "FAILED" }
+                        }
                         Some((_, o)) if o == "pass" => {
                             if ran.iter().any(|(n, o)| n != &t.name && o != "pass") {
                                 "PASS-WITH-FAILING-SIBLING"
@@ -689,6 +734,7 @@ pub fn calibration_scn() -> Scn {
         no_cargo: false,
         order: vec![0],
         root_prefix: String::new(),
+        outcomes_from_body: false,
     }
 }
 
